@@ -223,6 +223,7 @@ def fmt_flow(prog, fn, pidx, seen=None):
 
 
 SEARCHERS = {"strstr": (0, 1), "strnstr": (0, 1), "wcsstr": (0, 1), "strcasestr": (0, 1), "memmem": (0, 2)}
+LIB_SEARCHERS = ("_strstr_s_chk", "_wcsstr_s_chk", "_strcasestr_s_chk")
 
 
 def inspect_filter(prog, fn, pidx, sink):
@@ -253,6 +254,16 @@ def inspect_filter(prog, fn, pidx, sink):
                 continue
             if "constraint_handler" in name:
                 continue
+            if name in LIB_SEARCHERS and prog.resolve(fn, name) is not None and hit and hit[0] == 0 and len(args) > 3:
+                needle = const_string_of(prog, fn, args[2])
+                if needle == "%n":
+                    # the library's own bounded search: sound only if the bound is the measured length of the format itself
+                    lens = {c["id"]: "len" for c in fn.calls() if c.get("callee") in ("strlen", "wcslen", "strnlen", "wcsnlen", "_strnlen_s_chk", "_wcsnlen_s_chk")
+                            and "id" in c and c.get("args") and labels_of(c["args"][0], der, None)}
+                    dl = derive(fn, lens, through_int=True) if lens else {}
+                    measured = args[1].get("k") == "v" and bool(labels_of(args[1], dl, None))
+                    other.append(("bounded-search" if not measured else "search bounded by the measured format length", i))
+                    continue
             eff = external_effect(name) if prog.resolve(fn, name) is None else None
             if eff is not None and "gram" in eff and eff.get("fmt") in hit:
                 continue     # another formatted sink (the no-space probe): handled as its own sink
@@ -471,8 +482,17 @@ def analyse_entries(ck, prog, min_entries):
             fk, searches, other = inspect_filter(prog, holder, hk, call)
             row.setdefault("filters", []).append(dict(sink=callee, in_function=holder.name, filter=fk, grammar=gram))
             if fk == "other":
-                ck.notes.append("%s -> %s: format is inspected by code this rule cannot classify (%s); delegation clause not decided for this sink"
-                                % (name, callee, other[0][0]))
+                if any(o[0] == "bounded-search" for o in other):
+                    bi = next(o[1] for o in other if o[0] == "bounded-search")
+                    ck.report("C09:n-filter-bounded-search:%s:%s" % (name, callee), "D-delegated-format-filter-unsound", holder.loc(bi),
+                              "%s searches the format for \"%%n\" with %s and a bound that is not the length of the format (e.g. the size of the destination): a \"%%n\" "
+                              "behind the first <bound> characters is not seen and the format still goes to libc %s" % (name, bi.get("callee"), callee),
+                              dict(chain=chain))
+                    continue
+                msg = "%s -> %s: format is inspected by code this rule cannot classify (%s); delegation clause not decided for this sink" % (name, callee, other[0][0])
+                ck.notes.append(msg)
+                if getattr(ck, "strict_other", False):
+                    ck.fail_broken(msg)
                 continue
             passes = None
             if fk in STANDARD_PASSES:
@@ -513,6 +533,7 @@ def run(ck):
     prog = Program(mods)
     summ = Summaries(prog)
     stats = engine_rules(ck, prog, summ)
+    ck.strict_other = True        # on the real tree every delegating entry is classified; an unclassifiable pre-scan is 'not decided' = exit 2, not a pass
     table = analyse_entries(ck, prog, MIN_ENTRIES)
     fx = selftest(ck)
     n_libc = sum(1 for r in table.values() if any(s.startswith("libc:") for s in r["sinks"]))
@@ -547,7 +568,8 @@ def selftest(ck):
     t = analyse_entries(sk, prog, 0)
     got = sorted(sk.reports)
     want = sorted(["C09:no-n-filter:fx_nofilter:vprintf", "C09:unsound-n-filter:fx_lookbehind:vprintf", "C09:unsound-n-filter:fx_substring:vsscanf",
-                   "C09:n-filter-lets-through:fx_lookbehind_start:vprintf:B", "C09:unsound-n-filter:fx_lookbehind_w:vwprintf"])
+                   "C09:n-filter-lets-through:fx_lookbehind_start:vprintf:B", "C09:unsound-n-filter:fx_lookbehind_w:vwprintf",
+                   "C09:n-filter-bounded-search:fx_bounded:vsnprintf"])
     want2 = [w.replace("vsscanf", "__isoc99_vsscanf") for w in want]
     if got != want and got != sorted(want2):
         ck.fail_broken("fixture c09.c: delegation rule reported %s, expected %s" % (got, want))
